@@ -521,9 +521,23 @@ protected:
 
         m_entries.splice(m_entries.end(), m_freeEntries, --m_freeEntries.end());
 
-        m_buckets[index].push_back(--m_entries.end());
-
         ++m_size;
+
+        try
+        {
+            m_buckets[index].push_back(--m_entries.end());
+        }
+        catch(...)
+        {
+            // The bucket could not grow, so the new entry cannot
+            // be found through it: take it out again (this destroys
+            // the pair and returns the entry to the free list),
+            // instead of leaving a live entry that is in no bucket
+            // and is not counted in m_size.
+            doRemoveEntry(iterator(--m_entries.end()));
+
+            throw;
+        }
 
         return iterator(--m_entries.end());
     }
